@@ -74,10 +74,30 @@ impl Prop for C07 {
                 workers: 8,
                 build: Build::Normal,
             },
+            Leg {
+                name: "huge",
+                kind: LegKind::Random {
+                    cases: tier.pick(4, 40),
+                },
+                workers: 16,
+                build: Build::Normal,
+            },
         ]
     }
 
-    fn strategy(_leg: &str, tier: Tier) -> BoxedStrategy<Case> {
+    fn strategy(leg: &str, tier: Tier) -> BoxedStrategy<Case> {
+        if leg == "huge" {
+            return (gen::huge_wisize(3100), any::<u16>(), any::<u8>())
+                .prop_map(|((g, family), sraw, sclass)| {
+                    let s = match sclass % 6 {
+                        0 => g.order - 1,
+                        1 => 0,
+                        _ => gen::idx(sraw, g.order),
+                    };
+                    Case { g, s, family }
+                })
+                .boxed();
+        }
         (
             gen::weighted_isize_big_rate(tier.pick(14, 48), 80),
             any::<u16>(),
